@@ -1,2 +1,4 @@
 import HermesProofs.Calendar
 import HermesProofs.Partition
+import HermesProofs.RatInst
+import HermesProofs.Water
